@@ -142,9 +142,26 @@ CLAIMED = {
 
 PENDING = {}
 
+_SESS = "Also, as part of the System engine (DESIGN.md 11.8-11.9): recorded user sessions are validated event by event as behaviours of System.tla by the trace specification Trace_System.tla"
+_MC = "and every transition of the bounded session model MC_System.tla (TLC BFS, system invariants) is stepped through the library"
+SYSTEM_PART = {
+    "C04": _SESS + " (load / save / re-open, also through named files opened by file name) " + _MC + " (focus save: InvSaveReopen).",
+    "C05": _SESS + " (simfile.mutate on named files with output and backup names: the files afterwards are serializations of the edited / the original simfile).",
+    "C06": _SESS + " (simfile.mutate whose body is cancelled or raises: no file changes, the body's own exception escapes).",
+    "C07": _SESS + " (reading a chart's notes) " + _MC + ".",
+    "C08": _SESS + " (writing a note stream into a chart).",
+    "C09": _SESS + " (counting a chart's notes) " + _MC + ".",
+    "C13": _SESS + " (time_notes of a chart after edits of timing properties: source rule + parsers + timeline + note data composed; times exact in 1/286720 s on the smooth sub-domain) " + _MC + " (focus timing: SourceIsolation as action property, InvTimesMonotone).",
+    "C14": _SESS + " (reading timing lists) " + _MC + ".",
+    "C15": _SESS + " (which object supplies the timing data, observed through the times of the chart's notes) " + _MC + " (focus timing: SourceIsolation).",
+    "C16": _SESS + " (sm_to_ssc inside a session) " + _MC + " (focus tossc: InvConvertRoundTrip).",
+    "C17": _SESS + " (ssc_to_sm under a policy inside a session) " + _MC + " (focus tosm).",
+    "C18": _SESS + " (attribute / key edits with aliases, chart edits) " + _MC + " (focus edit: InvViews).",
+}
+
 ENGINES = [
-    ("system", "spec/system", ["C04", "C07", "C08", "C09", "C14", "C16", "C17", "C18"],
-     "System.tla (one state machine over a simfile object and the text on disk: load/create, key and attribute edits with aliases, chart edits, save, re-open, sm_to_ssc, ssc_to_sm under a policy, reading / writing / counting notes, reading timing lists) + Trace_System.tla (stateful trace specification: one action per recorded event, many sessions per TLC run)"),
+    ("system", "spec/system", ["C04", "C05", "C06", "C07", "C08", "C09", "C13", "C14", "C15", "C16", "C17", "C18"],
+     "System.tla (one state machine over a simfile object, the text on disk and the named files of a session: load/create, key and attribute edits with aliases, chart edits, save, re-open, serialize into a file, open by file name, mutate with output / backup / cancelled / failing body, sm_to_ssc, ssc_to_sm under a policy, reading / writing / counting notes, reading timing lists, timing a chart's notes through the split-timing source rule + the timeline) + MC_System.tla (bounded BFS over sessions, system invariants, every transition replayed on the library) + Trace_System.tla (stateful trace specification: one action per recorded event, many sessions per TLC run)"),
     ("discovery", "spec/discovery", ["C19", "C20"], "Discovery.tla (directory / pack views, asset answer sets, pack banner) + MC_Discovery + Trace_Discovery + order-forcing recording filesystem proxy"),
     ("timingsource", "spec/timingsource", ["C15"], "TimingSource.tla (source rule, all-or-nothing timing data, displayed BPM classes) + MC_TimingSource + Trace_TimingSource"),
     ("beat", "spec/beat", ["C14"], "Beat.tla (exact / snapped construction, Str3 closed form, arithmetic, decimal and event-list parsing) + MC_Beat + Trace_Beat"),
@@ -172,6 +189,8 @@ def build():
         if pid not in CLAIMED:
             continue
         eng, ref, text, note = CLAIMED[pid]
+        if pid in SYSTEM_PART:
+            text += " " + SYSTEM_PART[pid]
         checks.append({
             "property_id": pid,
             "quick_cmd": "./check %s --tier quick" % pid,
